@@ -24,3 +24,9 @@ pub mod heap {
 pub mod rust_util {
     pub use crate::util::rust_util::rev_group::verif_group_by;
 }
+
+/// Policy internals (`policy` is a private module).
+pub mod policy {
+    pub use crate::policy::marksweepspace::native_ms::mi_bin;
+    pub use crate::policy::marksweepspace::native_ms::verif as native_ms;
+}
